@@ -111,7 +111,12 @@ impl EraYear {
     pub(crate) fn try_from_partial_date(partial: &PartialDate) -> TemporalResult<Self> {
         match (partial.year, partial.era, partial.era_year) {
             (Some(year), None, None) => Ok(Self { era: None, year }),
-            (None, Some(era), Some(era_year)) => {
+            // All three (a value's own fields): the era and its year designate the year; where the calendar's
+            // era table does not know the era, the arithmetic year does.
+            (Some(year), Some(era), Some(_)) if partial.calendar.get_era_info(&era).is_none() => {
+                Ok(Self { era: None, year })
+            }
+            (_, Some(era), Some(era_year)) => {
                 let Some(era_info) = partial.calendar.get_era_info(&era) else {
                     return Err(TemporalError::range().with_message("Invalid era provided."));
                 };
